@@ -25,7 +25,8 @@ TIMEOUT = 150
 
 def _norm(e):
     return {"ev": e["ev"], "run": e["run"], "var": {"prog": e["var"]["prog"], "on": sorted(e["var"]["on"]), "route": e["var"].get("route", "plain"),
-                                                         "inout": e["var"].get("inout", "no"), "dev": e["var"].get("dev", "same")},
+                                                         "inout": e["var"].get("inout", "no"), "dev": e["var"].get("dev", "same"),
+                                                         "env": e["var"].get("env", "stable")},
             "target": e["target"], "fs": dict(e["fs"]), "queue": [dict(q) for q in e["queue"]], "loose": sorted(e["loose"])}
 
 
@@ -34,6 +35,8 @@ def _label(ev):
         return ev["stage"]
     if ev["kind"] == "crash":
         return "CRASH %s/%s" % (ev["stage"], ev["when"])
+    if ev["kind"] == "fault":
+        return "FAULT %s before %s" % (ev["when"], ev["stage"])
     return ev["kind"]
 
 
@@ -68,19 +71,22 @@ def case_from_hist(hist, cid, hist_mode=False, seed=0):
             runs.append({"prog": e["var"]["prog"], "on": sorted(e["var"]["on"]), "target": e["target"], "crash": None,
                          "exc": "Exception"})
             runs[-1]["input"] = u.VARIANT_INPUT[(runs[-1]["prog"], tuple(runs[-1]["on"]))]
-        elif e["ev"]["kind"] == "crash":
+        elif e["ev"]["kind"] == "crash" and e["ev"]["when"] != "env":
             runs[-1]["crash"] = {"stage": e["ev"]["stage"], "when": e["ev"]["when"]}
+        elif e["ev"]["kind"] == "fault":
+            # environment fault of the specification: really applied when the run reaches the boundary "before <stage>"
+            runs[-1]["fault"] = {"stage": e["ev"]["stage"], "what": e["ev"]["when"]}
     ext = ".dat" if hist_mode else u.EXT[runs[0]["prog"]]
     names = {"out": "out" + ext, "out2": "out2" + ext, "tgt": "run_001" + ext}
     nbk = sum(1 for k in first["fs"] if k.startswith("b"))
     init = {k: v for k, v in first["fs"].items() if k not in ("other",) and v != "absent"}
     return {"id": cid, "names": names, "nbk": nbk, "init": init, "runs": runs, "seed": seed, "instrument": True,
             "route": first["var"].get("route", "plain"), "inout": first["var"].get("inout", "no"),
-            "dev": first["var"].get("dev", "same")}
+            "dev": first["var"].get("dev", "same"), "env": first["var"].get("env", "stable")}
 
 
 def case_key(case):
-    return json.dumps([[r["prog"], r["on"], r["target"], r["crash"]] for r in case["runs"]] + [sorted(case["init"].items()), case.get("route", "plain"), case.get("inout", "no"), case.get("dev", "same")])
+    return json.dumps([[r["prog"], r["on"], r["target"], r["crash"], r.get("fault")] for r in case["runs"]] + [sorted(case["init"].items()), case.get("route", "plain"), case.get("inout", "no"), case.get("dev", "same")])
 
 
 def _ref_job(arg):
@@ -118,7 +124,10 @@ def _run_job(case):
 def execute(cases, root, refs):
     global _REFS, _ROOT
     _REFS, _ROOT = refs, Path(root)
-    return u.fork_map(_run_job, cases, timeout=TIMEOUT)
+    try:
+        return u.fork_map(_run_job, cases, timeout=TIMEOUT)
+    finally:
+        u.unlock_tree(root)      # directories locked by an environment fault in a child that was killed
 
 
 # ------------------------------------------------------------------ S -> I
@@ -178,7 +187,8 @@ def judge_main(ck, results):
         rn = cs["runs"][0]
         ck.violation({"kind": "S->I", "case": cs, "expected": h, "observed": r["events"], "info": r["info"]},
                      what="%s [%s] initial %s, %s: %s" % (rn["prog"], ",".join(rn["on"]) or "-", cs["init"] or "empty directory",
-                                                         ("crash %s/%s" % (rn["crash"]["stage"], rn["crash"]["when"])) if rn["crash"] else "no crash", why))
+                                                         ("crash %s/%s" % (rn["crash"]["stage"], rn["crash"]["when"])) if rn["crash"] else
+                                                         ("environment fault %s before %s, no injected exception" % (rn["fault"]["what"], rn["fault"]["stage"])) if rn.get("fault") else "no crash", why))
 
 
 # ------------------------------------------------------------------ I -> S
@@ -234,9 +244,19 @@ def random_cases(n, sd, nslow=0):
         if (init.get("out") == "old" and route == "plain" and "/" not in stem and not no_parent and rng.random() < 0.7
                 and key in ("gc_full", "gc_coords_bld", "gp_min", "gp_p3ht", "gp_ps_json", "gp_bad_res", "gp_bad_seq")):     # inputs whose file has the output's format (.gro / .itp)
             inout, init["out"] = rng.choice(["same", "link", "dots"]), "inp"   # the run reads an input from the output path
+        dev = "cross" if (not no_parent and rng.random() < 0.2) else "same"
+        fault = None
+        if key in GOOD and crash is None and not no_parent and route == "plain" and inout == "no" and rng.random() < 0.5:
+            # an environment fault while the process is alive instead of an injected exception (spec: Fault / EnvFail)
+            what = rng.choice([k for k in ("tmp_gone", "tmp_ro", "out_ro") if k == "tmp_gone" or u.ro_method()])
+            if what == "out_ro":
+                pts = [stages[0], "popen" if prog == "gen_seq" else "flush"]
+            else:
+                pts = [stages[0]] + ([] if prog == "gen_seq" else ["open"])
+            fault, dev = {"stage": rng.choice(pts), "what": what}, "same"
         cases.append({"id": "t%04d" % i, "names": names, "nbk": TNBK, "init": init, "seed": sd, "instrument": True, "no_parent": no_parent,
-                      "route": route, "inout": inout, "dev": "cross" if (not no_parent and rng.random() < 0.2) else "same",
-                      "runs": [{"prog": prog, "on": sorted(on), "input": key, "target": "out", "crash": crash,
+                      "route": route, "inout": inout, "dev": dev, "env": "faulty" if fault else "stable",
+                      "runs": [{"prog": prog, "on": sorted(on), "input": key, "target": "out", "crash": crash, "fault": fault,
                                 "exc": rng.choice(["Exception", "BaseException"])}]})
     return cases
 
@@ -276,7 +296,7 @@ def trace_direction(ck, wd, n, sd, refs_cache, nslow=0):
     refs_cache.update(references(ck, wd, need, sd))
     res = execute(cases, wd / "traces", refs_cache)
     traces, kept = [], []
-    stats = {"success": 0, "injected": 0, "self_failed": 0, "timeouts": 0}
+    stats = {"success": 0, "injected": 0, "self_failed": 0, "env_faults": 0, "env_failed": 0, "timeouts": 0}
     for cs, (st, r) in zip(cases, res):
         if st == "timeout":
             stats["timeouts"] += 1
@@ -294,10 +314,13 @@ def trace_direction(ck, wd, n, sd, refs_cache, nslow=0):
                 ck.violation({"kind": "I->S", "case": cs, "observed": r["events"], "info": r["info"]},
                              what="%s raised by itself on valid input %s in stage %s: %s" % (rn["prog"], rn["input"], x["stage"], x["exc"]))
                 continue
+        elif r["info"].get("env_failed"):
+            stats["env_failed"] += 1
         elif r["events"][-1]["ev"]["kind"] == "crash":
             stats["injected"] += 1
         else:
             stats["success"] += 1
+        stats["env_faults"] += 1 if rn.get("fault") else 0
         traces.append({"events": r["events"]})
         kept.append((cs, r))
         ck.nontrivial.add("trace " + case_key(cs) + json.dumps(cs["names"]))
@@ -405,9 +428,12 @@ DEVS = [("Out_dev_plainopen.cfg", "NoEarlyEffect", "output opened with open() in
         ("Out_dev_inplace.cfg", "NoEarlyEffect", "output path holds an input of the run and is updated in place: truncated when serialisation fails (seed3-C20-2)"),
         ("Out_dev_inplace_succ.cfg", "SuccessState", "output path holds an input of the run and is updated in place: previous bytes not under a backup name (seed3-C20-2)"),
         ("Out_dev_moveclose_cross.cfg", "SuccessState", "gen_params flushes the writer before the handle is closed: with the temp directory on another file system the buffered tail is lost (seed5-C20-1)"),
+        ("Out_dev_stagefallback_succ.cfg", "SuccessHasBackup", "staging fails and the program writes directly: it reports success without a backup of the previous file (seed7-C20-2)"),
+        ("Out_dev_backupskip.cfg", "SuccessHasBackup", "the backup cannot be made (output directory takes no new entries) and the flush writes over the existing file: success without a backup"),
         ("Out_dev_routediscard.cfg", "SuccessState", "own queue entry not recognised when the output path runs through a symlinked directory: nothing is written (seed2-C20-1)")]
 # the same flags against further properties (thorough tier)
-DEVS_MORE = [("Out_dev_plainopen_succ.cfg", "SuccessState", "output opened with open(): no backup of the previous file"),
+DEVS_MORE = [("Out_dev_stagefallback.cfg", "NoEarlyEffect", "the output cannot be staged (staging directory gone / takes no new files) and the program 'recovers' by opening the output path directly: truncated before success (seed7-C20-2)"),
+             ("Out_dev_plainopen_succ.cfg", "SuccessState", "output opened with open(): no backup of the previous file"),
              ("Out_dev_plainopen_commit.cfg", "CommitOnly", "output opened with open(): the directory changes outside the commit stage"),
              ("Out_dev_nobackup_succ.cfg", "SuccessState", "temp file moved over the existing file: no backup after success")]
 
@@ -422,6 +448,9 @@ def run(tier):
                "path itself, a symbolic link to it, or ./sub/../name) x every crash point "
                "(before and after every stage, in the middle of serialisation, of the flush and of gen_seq's write) or success; each is run on the "
                "real program in a fresh process and compared after every stage; distinct = (variant, initial directory, crash point). "
+               "Environment faults instead of injected exceptions: 6 variants x fresh / existing / existing+backup / symbolic-link output x "
+               "{staging directory removed, staging directory read-only, output directory read-only} x {at the start of the run, right before "
+               "the stage that needs the resource}, the directories really removed / made read-only at that stage boundary. "
                "I->S: seeded real runs on 24 other inputs (9 of them failing by themselves), 6 backup names with gaps, other file names and "
                "sub-directories, Exception and BaseException crashes; distinct = (input, names, initial directory, crash point)")
     ck.assumptions = ["contents are compared byte for byte; 'complete new content' = what an un-instrumented successful run of the same command "
@@ -430,8 +459,14 @@ def run(tier):
                       "write() call of the serialiser, before the final move of the flush, half of gen_seq's json text",
                       "one forked process per case models the fresh process of a command-line invocation; the temp directory is private per case "
                       "(tempfile.tempdir) so that the writer's temporary files can be observed",
+                      "environment faults: the staging directory is the process' tempfile.tempdir (private per case), removed with rmtree or made "
+                      "read-only for the running process (chmod 0555; for root the immutable flag, see readonly_directory_method); 'full' is represented "
+                      "by 'takes no new files'; one fault per run, not combined with an injected exception",
                       "out of the statement's domain, checked for conformance only: crashes inside the flush / inside gen_seq's final write, and two runs in one process (N3)"]
+    u.unlock_tree(c.WORK / PROP)     # left-overs of a killed earlier run (directories locked by an environment fault)
     wd = c.workdir(PROP, "runs")
+    ro = u.ro_method(c.WORK / PROP)
+    ck.extra["readonly_directory_method"] = ro or "none available: only the 'staging directory removed' fault is bound"
     import atexit, os, shutil
     atexit.register(shutil.rmtree, "/dev/shm/verif_c20_%d" % os.getpid(), True)
     ck.stage("TLC: model, sensitivity runs, history instances, exports (concurrently)")
@@ -448,9 +483,9 @@ def run(tier):
     res = c.tlc_many(jobs)
     small, export, hpers, hfresh, hsame, mcsame, xpers, xfresh = res[:8]
     ck.model_must_hold(mcsame, "flush before close with everything on ONE file system: SuccessState still holds (the deviation only shows across devices)")
-    ck.model_must_hold(small, "NoEarlyEffect/SuccessState/OthersKept/OnlyBackupCreated/NoLoss/TargetWhole/TmpClean/CommitOnly")
+    ck.model_must_hold(small, "NoEarlyEffect/SuccessState/OthersKept/OnlyBackupCreated/NoLoss/TargetWhole/TmpClean/EnvFailClean/SuccessHasBackup/CommitOnly")
     cov = small.coverage()
-    for act in ("Work", "OpenDeferred", "PlainOpen", "WriteBegin", "WriteEnd", "CloseHandle", "FlushBegin", "FlushFind", "FlushBackup", "FlushMove", "AnyCrash", "Finish"):
+    for act in ("Fault", "EnvFail", "Work", "OpenDeferred", "PlainOpen", "WriteBegin", "WriteEnd", "CloseHandle", "FlushBegin", "FlushFind", "FlushBackup", "FlushMove", "AnyCrash", "Finish"):
         if not cov.get(act):
             raise c.MachineryError("action %s never taken in Out_small (vacuous)" % act)
     for (cfg, inv, what), r in zip(devs, res[8:]):
@@ -477,11 +512,21 @@ def run(tier):
         rng = random.Random(sd)
         groups = {}
         for h in hists:
-            groups.setdefault(json.dumps([h[0]["var"]["prog"], sorted(h[0]["var"]["on"]), h[0]["var"]["route"] == "plain", h[0]["var"]["inout"] == "no", h[0]["var"]["dev"], h[-1]["ev"]], sort_keys=True), []).append(h)
+            groups.setdefault(json.dumps([h[0]["var"]["prog"], sorted(h[0]["var"]["on"]), h[0]["var"]["route"] == "plain", h[0]["var"]["inout"] == "no", h[0]["var"]["dev"], h[0]["var"].get("env", "stable"), h[-1]["ev"]], sort_keys=True), []).append(h)
         sel = []
         for k in sorted(groups):
             g = sorted(groups[k], key=lambda h: json.dumps(h[0]["fs"], sort_keys=True))
             last = g[0][-1]["ev"]
+            if g[0][0]["var"].get("env", "stable") != "stable":
+                # environment faults (6 variants x 4 initial directories x fault kind x fault point, no injected exception): all
+                # quick: every fault kind x fault point for the existing / symbolic-link outputs without backups, for the fresh and the
+                # existing+backup directories only the fault right before the stage that needs the resource; the behaviours without
+                # any fault are those of the stable variants
+                for h in g:
+                    f = [e["ev"] for e in h if e["ev"]["kind"] == "fault"]
+                    if f and ((h[0]["fs"]["out"] != "absent" and h[0]["fs"]["b1"] == "absent") or f[0]["stage"] in ("open", "flush", "popen")):
+                        sel.append(h)
+                continue
             if g[0][0]["var"]["dev"] == "cross":
                 # temp directory on another file system (3 initial directories): all 3 for success and the flush points, 1 from
                 # open to close, none for the earlier work stages (nothing device-dependent has happened yet)
@@ -517,6 +562,8 @@ def run(tier):
             else:
                 sel += rng.sample([h for h in g if h not in links], 1) + rng.sample(links, 1)
         hists = sel
+    if not ro:
+        hists = [h for h in hists if not any(e["ev"]["kind"] == "fault" and e["ev"]["when"].endswith("_ro") for e in h)]
     ck.stage("S->I: %d behaviours on the real programs" % len(hists))
     mid = [h for h in hists if h[-1]["ev"] == {"kind": "crash", "stage": "flush", "when": "mid"} and h[0]["fs"]["out"] == "old" and h[0]["fs"]["b1"] != "absent"]
     lk = [h for h in hists if h[-1]["ev"]["kind"] == "finish" and h[0]["fs"]["out"] == "link" and h[0]["fs"]["b1"] != "absent" and h[0]["var"]["prog"] == "gen_coords"]
@@ -590,6 +637,7 @@ def replay(path):
     doc = json.loads(open(path).read())
     case = doc["case"]
     ck = _ReplayCk()
+    u.ro_method(c.WORK / PROP)
     wd = c.workdir(PROP, "replay")
     if case["kind"] == "S->I":
         cs = case["case"]
